@@ -80,16 +80,16 @@ type Enum[C any] struct {
 }
 
 type subRec struct {
-	Evaluations int64            `json:"evaluations"`
-	NonTrivial  int64            `json:"nontrivial_evaluations"`
-	Classes     map[string]int64 `json:"classes"`
+	Evaluations int64             `json:"evaluations"`
+	NonTrivial  int64             `json:"nontrivial_evaluations"`
+	Classes     map[string]int64  `json:"classes"`
 	Samples     []json.RawMessage `json:"samples"`
-	Require     []string         `json:"require"`
-	Rule        string           `json:"rule"`
-	Exhaustive  bool             `json:"exhaustive"`
-	Requested   int              `json:"requested"`
-	Passed      bool             `json:"passed"`
-	WallS       float64          `json:"wall_s"`
+	Require     []string          `json:"require"`
+	Rule        string            `json:"rule"`
+	Exhaustive  bool              `json:"exhaustive"`
+	Requested   int               `json:"requested"`
+	Passed      bool              `json:"passed"`
+	WallS       float64           `json:"wall_s"`
 	samplePer   map[string]int
 }
 
